@@ -91,12 +91,17 @@ package ws
 //@   modifies @wsst(w)
 // (C10: 'unpair disconnects' ends here - the hub's CloseConnection reaches the transport through this function, and
 // closed means released: the object invariant T2)
+// the SHIP layer's view of its data writer (api: ghost attribute $wsClosed) is this connection's closed flag: the two
+// interface clauses the SHIP layer relies on are proved for this implementation, not assumed
+//@ ghostdef (w *WebsocketConnection).$wsClosed := w.connectionClosed
 //@ func (w *WebsocketConnection).CloseDataConnection(closeCode, reason) entry [C13,C08,C10]
+//@   implements api.WebsocketDataWriterInterface.CloseDataConnection
 //@   ensures [C13,C10] T1-closed: w.connectionClosed
 // (C08: a report from inside a deliberate close re-enters CloseConnection under its sync.Once - the caller wedges)
 //@   ensures [C13,C08] T1-silent: w.dataProcessing.$errReports == old(w.dataProcessing.$errReports)
 //@   modifies @wsst(w)
 //@ func (w *WebsocketConnection).IsDataConnectionClosed() entry [C13,C12]
+//@   implements api.WebsocketDataWriterInterface.IsDataConnectionClosed
 //@   ensures result.0 == w.connectionClosed
 //@   ensures [C13] T6-error: result.0 ==> result.1 != nil
 //@ func (w *WebsocketConnection).WriteMessageToWebsocketConnection(message) entry [C12,C06,C08]
